@@ -12,7 +12,7 @@ git -C $W apply "$P" || { echo "PATCH DOES NOT APPLY"; exit 2; }
 cd /verif
 for id in "$@"; do
   s=$(date +%s)
-  out=$(VERIF_REPO=$W VERIF_DIR=/verif bin/vdriver check $id --tier ${TIER:-quick} --seed ${SEED:-1} --no-evidence 2>&1 | grep -v "^\[vdriver\]" | cut -c1-600)
+  out=$(VERIF_REPO=$W VERIF_DIR=/verif bin/vdriver check $id --tier ${TIER:-quick} --seed ${SEED:-1} ${EXTRA:-} --no-evidence 2>&1 | grep -v "^\[vdriver\]" | cut -c1-600)
   rc=$?
   echo "--- $id ($(( $(date +%s)-s ))s): $(echo "$out" | grep -E "^VIOLATION|^OK|HARNESS" | head -1)"
   echo "$out" | grep -E "^  class=" | head -1
